@@ -54,6 +54,8 @@ def rand_query(h, orc):
     kind = h.pick(orc.get('kinds', KINDS))
     p = h.pick(orc['qpaths'])
     q = {'s': 'q', 'kind': kind, 'p': p}
+    if orc.get('mutate') and kind in ('list_dir', 'walk'):
+        q['mut'] = h.chance(70)
     if kind == 'read':
         q['cmp'] = h.pick(orc.get('cmps', ['METADATA', 'HASH']))
         q['how'] = h.pick(['declare', 'binary', 'declare'])
@@ -68,11 +70,18 @@ def rand_call(h, orc, level):
         return None
     f = h.pick(names)
     args = [h.below(orc.get('nargs', 2))]
+    extra = {}
+    if orc.get('mutate'):
+        args = [h.below(2), [1, [2, 3]], {'a': [1], 'b': {'c': [2]}}]
+        extra = {'kw': {'k': [1, {'z': [2]}]}, 'mut': h.chance(60), 'mut_args': h.chance(60)}
     if h.chance(orc.get('w_bf', 60)):
-        return {'s': 'bf', 'p': h.pick(orc['targets']), 'f': f, 'args': args,
-                'cmp': h.pick(orc.get('cmps', ['METADATA', 'HASH'])),
-                'catch': h.chance(orc.get('catch', 70))}
-    return {'s': 'sb', 'f': f, 'args': args, 'catch': h.chance(orc.get('catch', 70))}
+        st = {'s': 'bf', 'p': h.pick(orc['targets']), 'f': f, 'args': args,
+              'cmp': h.pick(orc.get('cmps', ['METADATA', 'HASH'])),
+              'catch': h.chance(orc.get('catch', 70))}
+    else:
+        st = {'s': 'sb', 'f': f, 'args': args, 'catch': h.chance(orc.get('catch', 70))}
+    st.update(extra)
+    return st
 
 
 def oracle_stmt(orc, key, fr):
@@ -90,7 +99,7 @@ def oracle_stmt(orc, key, fr):
             return {'s': 'raise'}
         if h.chance(orc.get('nonjson', 2)):
             return {'s': 'return', 'nonjson': True}
-        return {'s': 'return'}
+        return {'s': 'return', 'container': True} if orc.get('mutate') else {'s': 'return'}
     if orc.get('p_probe') and h.chance(orc['p_probe']):
         return {'s': 'probe', 'paths': [h.pick(orc['qpaths']) for _ in range(3)]}
     r = h.below(100)
@@ -104,7 +113,7 @@ def oracle_stmt(orc, key, fr):
     if r < 92:
         if fr.kind == 'bf' and not wrote:
             return {'s': 'write', 'c': h.pick(orc.get('contents', CONTENTS)), 'sz': h.pick(orc.get('sizes', SIZES))}
-        return {'s': 'return'}
+        return {'s': 'return', 'container': True} if orc.get('mutate') else {'s': 'return'}
     return {'s': 'raise'}
 
 
@@ -116,6 +125,8 @@ def rand_root(rnd, orc, nst, crash_pct=20):
         if r < 0.35:
             kind = rnd.choice(orc.get('kinds', KINDS))
             q = {'s': 'q', 'kind': kind, 'p': rnd.choice(orc['qpaths'])}
+            if orc.get('mutate') and kind in ('list_dir', 'walk'):
+                q['mut'] = rnd.random() < 0.7
             if kind == 'read':
                 q['cmp'] = rnd.choice(['METADATA', 'HASH'])
                 q['how'] = rnd.choice(['declare', 'binary'])
@@ -125,12 +136,18 @@ def rand_root(rnd, orc, nst, crash_pct=20):
         else:
             f = rnd.choice(orc['fnames']['0'])
             args = [rnd.randrange(orc.get('nargs', 2))]
+            extra = {}
+            if orc.get('mutate'):
+                args = [rnd.randrange(2), [1, [2, 3]], {'a': [1], 'b': {'c': [2]}}]
+                extra = {'kw': {'k': [1, {'z': [2]}]}, 'mut': rnd.random() < 0.6, 'mut_args': rnd.random() < 0.6}
             if rnd.random() < 0.65:
-                root.append({'s': 'bf', 'p': rnd.choice(orc['targets']), 'f': f, 'args': args,
-                             'cmp': rnd.choice(orc.get('cmps', ['METADATA', 'HASH'])),
-                             'catch': rnd.random() < 0.75})
+                st = {'s': 'bf', 'p': rnd.choice(orc['targets']), 'f': f, 'args': args,
+                      'cmp': rnd.choice(orc.get('cmps', ['METADATA', 'HASH'])),
+                      'catch': rnd.random() < 0.75}
             else:
-                root.append({'s': 'sb', 'f': f, 'args': args, 'catch': rnd.random() < 0.75})
+                st = {'s': 'sb', 'f': f, 'args': args, 'catch': rnd.random() < 0.75}
+            st.update(extra)
+            root.append(st)
     if rnd.randrange(100) < crash_pct:
         k = rnd.randrange(len(root) + 1)
         root = root[:k] + [{'s': 'raise'}]
@@ -179,6 +196,20 @@ PROFILES = {
     'clean': {'p_clean': 0.6, 'p_double_clean': 0.5, 'p_crash': 0.15, 'foreign': True},
     'cmp': {'p_same_root': 0.9, 'ext_meta': True, 'ext': [1, 1, 2], 'p_crash': 0.0, 'p_clean': 0.0,
             'w_read': True, 'builds': [3, 4]},
+    # read-back of outputs inside the subtree that built them, both modes, tampering of outputs
+    'cmpback': {'p_same_root': 0.95, 'ext_meta': True, 'ext_leaves': True, 'ext': [1, 1, 2], 'p_crash': 0.0,
+                'p_clean': 0.0, 'w_read': True, 'q_leaves': True, 'builds': [3, 4], 'raise': 4, 'nocreate': 0,
+                'nonjson': 0, 'maxstmts': [3, 4, 5]},
+    # in-place mutation of every value that crosses the API (C11), then unchanged rebuilds
+    'mutate': {'mutate': True, 'p_same_root': 1.0, 'p_crash': 0.0, 'ext': [0, 0, 0, 1], 'builds': [3, 4],
+               'p_clean': 0.0, 'p_vers': 0.0, 'raise': 8, 'kinds': ['list_dir', 'walk', 'list_dir', 'is_file', 'read']},
+    # duplicates: few targets / keys so that the same path or key is requested again - directly,
+    # nested, after a cached subtree was reused, after the first occurrence failed
+    'dup': {'dup': True, 'p_same_root': 0.8, 'p_crash': 0.05, 'ext': [0, 0, 1], 'builds': [3, 4],
+            'p_clean': 0.0, 'p_vers': 0.1, 'raise': 25, 'maxstmts': [3, 4, 5], 'root_len': [3, 6]},
+    # stable programs with caught failures, rebuilt and then cleaned
+    'rebuildclean': {'p_same_root': 1.0, 'p_crash': 0.0, 'ext': [0, 0, 0, 1], 'builds': [2, 3], 'p_clean': 0.0,
+                     'p_vers': 0.0, 'raise': 30, 'final_clean': True, 'maxstmts': [3, 4, 5]},
 }
 
 VERSION_TERMS = [
@@ -256,13 +287,26 @@ def make_scenario(seed, profile='general'):
         'raise': P.get('raise', 10), 'nocreate': P.get('nocreate', 6), 'nonjson': P.get('nonjson', 2),
         'p_probe': int(100 * P.get('p_probe', 0) / 4),
     }
+    if P.get('mutate'):
+        orc['mutate'] = True
+    if P.get('dup'):
+        orc['targets'] = [['x'], ['d', 'y']]
+        orc['fnames'] = {'0': ['f0a'], '1': ['f0a', 'f1a'], '2': ['f1a']}
+        orc['nargs'] = 1
+        orc['catch'] = 90
+        orc['w_call'] = 45
+        orc['w_q'] = 35
+    if P.get('kinds'):
+        orc['kinds'] = P['kinds']
     if P.get('w_read'):
         orc['kinds'] = ['read', 'read', 'read', 'is_file', 'list_dir', 'get_size']
+    if P.get('q_leaves'):
+        orc['qpaths'] = LEAVES + LEAVES + DIRS
     universe = [p for p in qpaths]
 
     def ext():
         if P.get('ext_meta') and rnd.random() < 0.7:
-            p = rnd.choice(qpaths)
+            p = rnd.choice(LEAVES if P.get('ext_leaves') else qpaths)
             do = rnd.choice(['touch', 'rewrite_keep_meta', 'rewrite_keep_meta', 'write'])
             st = {'op': 'ext', 'do': do, 'p': p}
             if do != 'touch':
@@ -300,13 +344,14 @@ def make_scenario(seed, profile='general'):
     for _ in range(rnd.randrange(0, 4)):
         steps.append(ext())
     nbuilds = rnd.choice(P.get('builds', [2, 3, 3, 4]))
-    base_root = root_of(rnd.randrange(1, 5))
+    rl = P.get('root_len', [1, 5])
+    base_root = root_of(rnd.randrange(rl[0], rl[1]))
     vers = {}
     for b in range(nbuilds):
         if rnd.random() < P.get('p_same_root', 0.7):
             root = [dict(st) for st in base_root]
         else:
-            root = root_of(rnd.randrange(1, 5))
+            root = root_of(rnd.randrange(rl[0], rl[1]))
             base_root = root
         if rnd.random() < P.get('p_crash', 0.2):       # crash somewhere in the root function
             body = [st for st in root if st['s'] != 'return']
@@ -326,7 +371,7 @@ def make_scenario(seed, profile='general'):
                 steps.append({'op': 'clean', 'name': 'B'})
         for _ in range(rnd.choice(P.get('ext', [0, 0, 1, 1, 2, 3]))):
             steps.append(ext())
-    if rnd.random() < max(0.3, P.get('p_clean', 0)):
+    if P.get('final_clean') or rnd.random() < max(0.3, P.get('p_clean', 0)):
         steps.append({'op': 'clean', 'name': 'B'})
         if rnd.random() < P.get('p_double_clean', 0.1):
             steps.append({'op': 'clean', 'name': 'B'})
